@@ -38,26 +38,28 @@ pub(crate) mod b {
     fn bounded_enclose_tags() {
         let mut n = 0u64;
         // shapes: outer box, inner box nested in it, a sibling box, a circle
-        let outer = (0.0f32, 0.0f32, 40.0f32, 40.0f32);
-        let inner = (5.0f32, 4.0f32, 20.0f32, 20.0f32);
-        let sibling = (50.0f32, 0.0f32, 70.0f32, 20.0f32);
-        let circ = (80.0f32, 10.0f32, 8.0f32);
+        let outer = (0.0f32, 0.0f32, 60.0f32, 60.0f32);
+        let inner = (5.0f32, 4.0f32, 45.0f32, 40.0f32);
+        let core = (6.5f32, 6.0f32, 30.0f32, 14.0f32); // nested in inner: three levels
+        let sibling = (70.0f32, 0.0f32, 95.0f32, 20.0f32);
+        let circ = (110.0f32, 10.0f32, 9.0f32);
         // positions of the content (cell coordinates; a cell is 1 x 2 units): in inner, in outer only,
         // in the sibling, in the circle, outside everything
-        let places: [(i32, i32, &str); 5] = [(8, 4, "inner"), (25, 15, "outer"), (55, 3, "sibling"), (78, 5, "circle"), (100, 30, "none")];
+        let places: [(i32, i32, &str); 6] = [(8, 4, "core"), (10, 10, "inner"), (47, 22, "outer"), (72, 3, "sibling"), (104, 4, "circle"), (130, 40, "none")];
         let contents = ["{t}", "{a,b1}", "{_x}", "hello", "{bad", "{a b}"];
         // precondition established by the caller (endorse_to_fragment_spans): shapes come before texts, and an
         // enclosing shape before the shapes inside it (spans are built in row-major order of their first cell)
-        let orders: [[usize; 4]; 4] = [[0, 1, 2, 3], [2, 3, 0, 1], [0, 2, 1, 3], [3, 0, 2, 1]];
+        let orders: [[usize; 5]; 4] = [[0, 1, 4, 2, 3], [2, 3, 0, 1, 4], [0, 2, 1, 3, 4], [3, 0, 2, 1, 4]];
         for (px, py, place) in places {
             for content in contents {
                 for order in orders {
                     for text_first in [false] {
                         let shapes = [rect(outer.0, outer.1, outer.2, outer.3), rect(inner.0, inner.1, inner.2, inner.3),
-                            rect(sibling.0, sibling.1, sibling.2, sibling.3), circle(circ.0, circ.1, circ.2)];
+                            rect(sibling.0, sibling.1, sibling.2, sibling.3), circle(circ.0, circ.1, circ.2),
+                            rect(core.0, core.1, core.2, core.3)];
                         let mut frags: Vec<FragmentSpan> = order.iter().map(|i| shapes[*i].clone()).collect();
                         let label = text(px, py, content);
-                        let other = text(26, 16, "x"); // plain text in the outer box, never a tag
+                        let other = text(48, 25, "x"); // plain text in the outer box, never a tag
                         if text_first {
                             frags.insert(0, label.clone());
                             frags.insert(0, other.clone());
@@ -72,6 +74,7 @@ pub(crate) mod b {
                             match f {
                                 Fragment::Rect(r) if r.start.x == outer.0 => "outer",
                                 Fragment::Rect(r) if r.start.x == inner.0 => "inner",
+                                Fragment::Rect(r) if r.start.x == core.0 => "core",
                                 Fragment::Rect(_) => "sibling",
                                 Fragment::Circle(_) => "circle",
                                 _ => "text",
@@ -79,7 +82,7 @@ pub(crate) mod b {
                         };
                         let mut ok = true;
                         let mut why = String::new();
-                        for shape in ["outer", "inner", "sibling", "circle"] {
+                        for shape in ["outer", "inner", "core", "sibling", "circle"] {
                             let nodes = find(&trees, &|f| key(f) == shape);
                             if nodes.len() != 1 {
                                 ok = false;
